@@ -4,8 +4,10 @@ import (
 	"bytes"
 	"encoding/json"
 	"fmt"
+	"math"
 	"os"
 	"os/exec"
+	"reflect"
 	"strconv"
 	"strings"
 	"time"
@@ -19,7 +21,7 @@ type c03 struct{ base }
 func init() {
 	p := &c03{base{
 		id: "C03", level: "exploration",
-		technique: "metamorphic monitor: every case is rendered 12 times in-process (fresh engine, context rebuilt with permuted map insertion order and fresh allocations) and 4 times in a second process; all 16 outputs must be byte-identical",
+		technique: "metamorphic monitor: every case is rendered 12 times in-process (fresh engine, context rebuilt with permuted map insertion order and fresh allocations) and 4 times in a second process; all 16 outputs must be byte-identical; plus a context that lives on: rendered, its maps changed in place (same objects, same sizes, one key renamed), rendered again and compared with an equal context built from scratch",
 		rule: "case = template built from map-iterating / map-filtering / hash-literal / date-format / pointer-printing fragments + a context with untyped, typed and nested maps (2-9 entries), pointers and a fixed time; " +
 			"Non-trivial: the template iterates or filters a map or hash literal with >= 4 entries, or formats a date with >= 2 format letters. Distinct = distinct (template, context spec).",
 		assumptions: []string{
@@ -36,7 +38,7 @@ func init() {
 func (p *c03) Shards(string) int         { return 16 }
 func (p *c03) CaseTimeoutSec(string) int { return 120 }
 func (p *c03) RequiredCounters(string) []string {
-	return []string{"second-process-renders", "maps>=4", "date-formats"}
+	return []string{"second-process-renders", "maps>=4", "date-formats", "maps-changed-in-place"}
 }
 
 type c03Struct struct {
@@ -61,7 +63,7 @@ func (p *c03) gen(seed uint64, idx int) c03Case {
 	r := core.NewRand("C03", seed, idx)
 	var c c03Case
 	n := r.Range(2, 9)
-	all := []string{"alpha", "beta", "gamma", "delta", "eps", "zeta", "eta", "theta", "iota", "kappa", "lam", "mu"}
+	all := c03AllKeys
 	perm := r.Perm(len(all))
 	vperm := r.Perm(98)
 	for i := 0; i < n; i++ {
@@ -126,6 +128,9 @@ func (p *c03) gen(seed uint64, idx int) c03Case {
 		// a hash whose values do not order totally when numbers and text are compared by different rules
 		"{{ mix|sort|join(',') }}", "{{ mix|sort|first }}|{{ mix|sort|last }}", "{{ max(mix) }}|{{ min(mix) }}", "{{ mix|reverse|join(',') }}|{{ mix|join(',') }}", "{{ mix|keys|sort|join }}{{ mix|length }}", "{% for v in mix|sort %}{{ v }};{% endfor %}",
 		"{% for k, v in tie %}{{ k }}={{ v }},{% endfor %}", "{{ tie|first }}|{{ tie|last }}|{{ tie|keys|join(',') }}", "{{ tiep }}", "{{ tie|json_encode|length }}{% for v in tie %}{{ v }}{% endfor %}", "{{ tie|merge({'x': 1})|first }}", "{{ merge(tie, {'z': 1})|json_encode }}", "{{ tm|merge(tie)|json_encode }}", "{{ ti|merge(tie2)|keys|join(',') }}{{ tm|merge(tie2)|first }}", "{{ merge(tie2, tie)|keys|join(',') }}{{ merge(tie2, {'q': 2})|first }}",
+		// a NaN key among numeric keys; channels, functions and pointers handed to print, format and dump
+		"{% for k, v in nanm %}{{ k }}={{ v }};{% endfor %}", "{{ nanm|keys|join(',') }}|{{ nanm|first }}|{{ nanm|last }}", "{{ nanm }}|{{ nanm|json_encode|length }}", "{{ nanm|merge(ik)|keys|join(',') }}",
+		"{{ ch }}|{{ fn }}|{{ [ch, fn] }}", "{{ '%v %v'|format(p, ps) }}|{{ '%d'|format(p) }}|{{ '%s'|format(pstr) }}", "{{ dump(mp) }}|{{ dump(p) }}|{{ dump(st) }}", "{{ dump(ps, lp) }}|{{ '%v'|format(mp) }}|{{ '%v'|format(pp) }}", "{{ {'c': ch}|join }}{{ dump(ch)|length > 0 ? 'd' : 'n' }}",
 		"{% include 'inc3' with {'a1': a2, 'a2': a3, 'a3': a1, 'n1': n2 + 1, 'n2': 10} %}", "{% include 'inc3' with {'a3': a2 ~ a1, 'a2': a1, 'a1': 'x', 'n2': n1, 'n1': n2} only %}",
 		"{% include 'inc' with m %}", "{% include 'inc' with " + hash(r.Range(3, 6)) + " only %}",
 	}
@@ -264,7 +269,13 @@ func (c c03Case) buildCtx(variant uint64) map[string]interface{} {
 	for _, i := range r.Perm(len(mixVals)) {
 		mix[fmt.Sprintf("k%d", i)] = mixVals[i]
 	}
+	nanm := map[float64]string{}
+	nanKeys := []float64{math.NaN(), 3, 1, -2, 2.5, math.Inf(1)}
+	for _, i := range r.Perm(len(nanKeys)) {
+		nanm[nanKeys[i]] = fmt.Sprintf("f%d", i)
+	}
 	return map[string]interface{}{
+		"nanm": nanm, "ch": make(chan int), "fn": func() {}, "pstr": s,
 		"mix":  mix,
 		"tie2": tie2, "im3": im3,
 		"psn": psn, "stl": stl, "mpn": mpn, "lpn": []interface{}{nil, pi}, "arrp": arrp, "tie": tie, "tiep": tiep,
@@ -275,7 +286,51 @@ func (c c03Case) buildCtx(variant uint64) map[string]interface{} {
 }
 
 func (c c03Case) render(variant uint64) string {
-	res := renderFresh(map[string]string{"main": c.src, "inc3": "[{{ a1 }},{{ a2 }},{{ a3 }},{{ n1 }},{{ n2 }}]", "inc": "{% for k, v in _context|default({}) %}{% endfor %}[{{ alpha }}{{ beta }}{{ gamma }}{{ delta }}{{ eps }}]"}, "main", c.buildCtx(variant), nil)
+	return c.renderCtx(c.buildCtx(variant))
+}
+
+// morphInPlace gives every map of ctx that has a counterpart of the same type in fresh the entries of that counterpart,
+// keeping the map object (and so its address and, when the counts agree, its length); everything else is replaced.
+func morphInPlace(ctx, fresh map[string]interface{}) (morphed int) {
+	for name, nv := range fresh {
+		ov := reflect.ValueOf(ctx[name])
+		fv := reflect.ValueOf(nv)
+		if ov.IsValid() && ov.Kind() == reflect.Map && fv.Kind() == reflect.Map && ov.Type() == fv.Type() && !ov.IsNil() {
+			for _, k := range ov.MapKeys() {
+				ov.SetMapIndex(k, reflect.Value{})
+			}
+			for _, k := range fv.MapKeys() {
+				ov.SetMapIndex(k, fv.MapIndex(k))
+			}
+			morphed++
+			continue
+		}
+		ctx[name] = nv
+	}
+	return morphed
+}
+
+var c03AllKeys = []string{"alpha", "beta", "gamma", "delta", "eps", "zeta", "eta", "theta", "iota", "kappa", "lam", "mu"}
+
+// renamed: the same case with its first key replaced by a name the case does not use (same number of entries everywhere)
+func (c c03Case) renamed() c03Case {
+	used := map[string]bool{}
+	for _, k := range c.keys {
+		used[k] = true
+	}
+	c2 := c
+	c2.keys = append([]string{}, c.keys...)
+	for _, k := range c03AllKeys {
+		if !used[k] {
+			c2.keys[0] = k
+			break
+		}
+	}
+	return c2
+}
+
+func (c c03Case) renderCtx(ctx map[string]interface{}) string {
+	res := renderFresh(map[string]string{"main": c.src, "inc3": "[{{ a1 }},{{ a2 }},{{ a3 }},{{ n1 }},{{ n2 }}]", "inc": "{% for k, v in _context|default({}) %}{% endfor %}[{{ alpha }}{{ beta }}{{ gamma }}{{ delta }}{{ eps }}]"}, "main", ctx, nil)
 	if res.Panicked {
 		return "PANIC@" + res.Site + ":" + res.PanicVal
 	}
@@ -394,6 +449,25 @@ func (p *c03) Run(rec *core.Recorder, seed uint64, idx int, tier string) {
 	if strings.HasPrefix(outs[0], "PANIC@") {
 		rec.Violate("panic", "panic@"+strings.SplitN(strings.TrimPrefix(outs[0], "PANIC@"), ":", 2)[0], "engine panicked: "+outs[0], cs, "")
 		return
+	}
+	// a context that lives on: rendered once, then its maps are given other entries in place (one key renamed, so every
+	// map keeps its address and its length) and it is rendered again. The bytes are determined by what the context holds
+	// now: they must equal those of a context with the same contents built from scratch.
+	{
+		c2 := c.renamed()
+		live := c.buildCtx(77)
+		before := c.renderCtx(live)
+		morphed := morphInPlace(live, c2.buildCtx(78))
+		after := c.renderCtx(live)
+		want := c2.render(79)
+		rec.Count("renders", 3)
+		rec.Count("maps-changed-in-place", morphed)
+		if before != outs[0] || after != want {
+			rec.Violate("repeat-equality", core.SigHash("c03-live", c.src+fmt.Sprint(c.keys)),
+				fmt.Sprintf("a context whose maps were changed in place between two renders (key %q renamed to %q, same sizes) rendered %s; an equal context built from scratch renders %s; template %s",
+					c.keys[0], c2.keys[0], core.Q(core.Trunc(after, 160)), core.Q(core.Trunc(want, 160)), core.Q(c.src)), cs, "")
+			return
+		}
 	}
 	if rec.WantSample("case") {
 		cs["output"] = core.Trunc(outs[0], 300)
